@@ -102,65 +102,66 @@ type FnTrans struct {
 	inst  string
 	subst map[string]types.Type
 
-	lines            []string
-	dtDecl           []string
-	dtSeen           map[string]bool
-	declared         map[string]bool
-	compSort         map[string]string
-	obls             []*Obligation
-	vals             map[ssa.Value]Val
-	entry            *State
-	cur              *State
-	guard            string // current reach condition
-	blkOut           map[*ssa.BasicBlock]*State
-	reach            map[*ssa.BasicBlock]string
-	edgeC            map[[2]int]string
-	loops            map[*ssa.BasicBlock]*loopInfo
-	curLoops         []*loopInfo
-	nfresh           int
-	counters         map[string]int
-	abstr            map[string]bool
-	trusted          map[string]bool
-	defers           []deferRec
-	locals           map[string][]localDef
-	failed           error
-	strs             map[string]string
-	typeIDs          map[string]int
-	held             []string
-	retCount         int
-	paramVals        map[string]Val
-	paramTypes       map[string]types.Type
-	recvName         string
-	resNames         []string
-	resTypes         []types.Type
-	ghostAtReturn    []*Clause
-	curInstr         ssa.Instruction
-	loopPre          map[*ssa.BasicBlock]*State
-	noGuardCheck     bool
-	slicedArrays     []slicedArr
-	havocAll         bool
-	useBytes         bool
-	sentinels        map[string]string
-	ranges           map[*ssa.Range]*rangeState
-	ghostDone        map[*ssa.Return]bool
-	earlyRes         map[ssa.Value]string
-	compT            map[string]types.Type
-	gaddr            map[string]string
-	mayHavePublished bool
-	tfBound          string
-	staticArgs       map[string]ssa.Value
-	viaCalls         bool
-	viaNoted         map[string]bool
-	inRequires       bool
-	heldAtEntry      map[string][]string // lock component -> refs that the contract requires to be held at entry
-	entryLocksDone   bool
-	autoInv          map[*ssa.BasicBlock][3]string
-	autoPhi          map[*ssa.BasicBlock]*ssa.Phi
-	ptrTerms         []ptrTerm
-	ghostHit         map[*Clause]bool
-	collectUnlocked  *[]string // while evaluating a callee's requires: lock components it needs unlocked (it acquires them)
-	tpEvents         []tpEvent
-	deferSite        ssa.Instruction
+	lines             []string
+	dtDecl            []string
+	dtSeen            map[string]bool
+	declared          map[string]bool
+	compSort          map[string]string
+	obls              []*Obligation
+	vals              map[ssa.Value]Val
+	entry             *State
+	cur               *State
+	guard             string // current reach condition
+	blkOut            map[*ssa.BasicBlock]*State
+	reach             map[*ssa.BasicBlock]string
+	edgeC             map[[2]int]string
+	loops             map[*ssa.BasicBlock]*loopInfo
+	curLoops          []*loopInfo
+	nfresh            int
+	counters          map[string]int
+	abstr             map[string]bool
+	trusted           map[string]bool
+	defers            []deferRec
+	locals            map[string][]localDef
+	failed            error
+	strs              map[string]string
+	typeIDs           map[string]int
+	held              []string
+	retCount          int
+	paramVals         map[string]Val
+	paramTypes        map[string]types.Type
+	recvName          string
+	resNames          []string
+	resTypes          []types.Type
+	ghostAtReturn     []*Clause
+	curInstr          ssa.Instruction
+	loopPre           map[*ssa.BasicBlock]*State
+	noGuardCheck      bool
+	slicedArrays      []slicedArr
+	havocAll          bool
+	useBytes          bool
+	sentinels         map[string]string
+	ranges            map[*ssa.Range]*rangeState
+	ghostDone         map[*ssa.Return]bool
+	earlyRes          map[ssa.Value]string
+	compT             map[string]types.Type
+	gaddr             map[string]string
+	mayHavePublished  bool
+	tfBound           string
+	staticArgs        map[string]ssa.Value
+	viaCalls          bool
+	viaNoted          map[string]bool
+	inRequires        bool
+	heldAtEntry       map[string][]string // lock component -> refs that the contract requires to be held at entry
+	entryLocksDone    bool
+	autoInv           map[*ssa.BasicBlock][3]string
+	autoPhi           map[*ssa.BasicBlock]*ssa.Phi
+	ptrTerms          []ptrTerm
+	ghostHit          map[*Clause]bool
+	singleAssignCache map[*ssa.Alloc]*ssa.Store
+	collectUnlocked   *[]string // while evaluating a callee's requires: lock components it needs unlocked (it acquires them)
+	tpEvents          []tpEvent
+	deferSite         ssa.Instruction
 }
 
 // tpEvent: an acquire / release of a lock component at an instruction (two-phase check).
@@ -184,6 +185,7 @@ type localDef struct {
 	v   ssa.Value
 	blk *ssa.BasicBlock
 	pos token.Pos
+	idx int // instruction index inside blk
 }
 
 func (t *FnTrans) fail(format string, a ...any) {
@@ -222,6 +224,15 @@ func (t *FnTrans) declareFun(name string, args []string, ret string) {
 func (t *FnTrans) assume(f string) {
 	if f == "true" {
 		return
+	}
+	// quantified conjuncts become hypotheses of their own, so that their instances are quantifier free
+	if strings.Contains(f, "(forall ") {
+		if parts := splitAnd(f); len(parts) > 1 && len(parts) <= 40 {
+			for _, p := range parts {
+				t.assume(p)
+			}
+			return
+		}
 	}
 	t.emit("(assert " + implies(t.guard, f) + ")")
 }
